@@ -76,7 +76,9 @@ func (r *ComDoc) writeShortSAT() error {
 		}
 		previous = sector
 	}
-	r.SAT[previous] = SecIDEndOfChain
+	if previous != SecIDEndOfChain {
+		r.SAT[previous] = SecIDEndOfChain
+	}
 	r.Header.SSATNextSector = first
 	r.Header.SSATSectorCount = uint32(len(freeList))
 	return nil
